@@ -220,6 +220,15 @@ class Session:
 
 
 S: Session = None   # type: ignore  # current session (virtual mode: single thread)
+PROGS = {}          # module name -> IR program (filled by materialize.load; survives fork)
+REAL = {'fd': None, 'run': None, 'jitter': 0.002}   # real-loop mode: trace goes to an O_APPEND file
+
+
+def real_emit(kind, run, node, **data):
+    import os
+    rec = {'k': kind, 'run': run, 'node': node, 'pid': os.getpid()}
+    rec.update(data)
+    os.write(REAL['fd'], (repr(rec) + '\n').encode())
 
 
 def set_session(s):
@@ -235,10 +244,45 @@ def pack(kwargs, **named):
     return out
 
 
-def _begin(nid, kwargs):
-    s = S
+class _RealSession:
+    """Minimal stand-in used by bodies running on real pools (possibly in a forked child)."""
+    real = True
+    objs = []
+
+    def __init__(self, prog):
+        self.nodes = prog['nodes']
+        self.attempts = {}
+
+    def ev(self, kind, run, node, **data):
+        data.pop('oid', None)
+        real_emit(kind, run, node, **data)
+
+    def run_of(self, kwargs):
+        inp = find_input(kwargs)
+        return inp[1] if inp is not None else REAL['run']
+
+
+_real_sessions = {}
+
+
+def _session_for(inst):
+    if REAL['fd'] is None:
+        return S
+    mod = type(inst).__module__
+    rs = _real_sessions.get(mod)
+    if rs is None:
+        rs = _real_sessions[mod] = _RealSession(PROGS[mod])
+    return rs
+
+
+def _begin(nid, kwargs, inst=None):
+    s = _session_for(inst) if inst is not None else S
     node = s.nodes[nid]
     run = s.run_of(kwargs)
+    if s.real and node.get('mode') != 'async':
+        import random as _r
+        import time as _t
+        _t.sleep(_r.random() * REAL['jitter'])
     key = (run, nid, repr(sorted(kwargs.items(), key=lambda kv: kv[0])))
     attempt = s.attempts.get(key, 0)
     s.attempts[key] = attempt + 1
@@ -262,14 +306,18 @@ def _finish(s, node, run, attempt, kwargs, inst):
 
 
 def body(inst, nid, kwargs):
-    s, node, run, attempt = _begin(nid, kwargs)
+    s, node, run, attempt = _begin(nid, kwargs, inst)
     return _finish(s, node, run, attempt, kwargs, inst)
 
 
 async def abody(inst, nid, kwargs):
-    s, node, run, attempt = _begin(nid, kwargs)
+    s, node, run, attempt = _begin(nid, kwargs, inst)
     try:
-        await gate(('body', run, nid))
+        if s.real:
+            import random as _r
+            await asyncio.sleep(_r.random() * REAL['jitter'])
+        else:
+            await gate(('body', run, nid))
     except asyncio.CancelledError:
         s.ev('body_cancelled', run, nid, attempt=attempt)
         raise
@@ -277,7 +325,7 @@ async def abody(inst, nid, kwargs):
 
 
 def default(inst, nid, kwargs):
-    s = S
+    s = _session_for(inst)
     run = s.run_of(kwargs)
     s.ev('default_call', run, nid, kwargs=dict(kwargs))
     return default_value(s.nodes[nid], kwargs)
